@@ -4,3 +4,4 @@ set -e
 cd /verif/harness
 export CARGO_NET_OFFLINE=true
 cargo build --offline --release -p vcore
+cargo build --offline --release -p vserde
